@@ -20,6 +20,9 @@ type CompileOptions struct {
 	//Compile pipeline extension
 	PipelineExtension  DataType
 	ExtensionMarkTypes map[string]DataType
+	//The rows are stored and may be extended later by a traversal that reads any
+	//of the marks: load every marked element
+	StoreMarks bool
 }
 
 // Compiler takes a gripql query and turns it into an executable pipeline
